@@ -357,6 +357,7 @@ public:
       calleeInfo(CE->getConstructor(), o);
       kv(o, "ty", tyStr(CE->getType()));
       if (CE->isElidable()) kvi(o, "elidable", 1);
+      if (CE->getConstructor()->isCopyOrMoveConstructor()) kvi(o, "copy", 1);
       std::vector<const Stmt*> args;
       for (const Expr* A : CE->arguments()) args.push_back(A);
       dumpChildList("args", args, o);
